@@ -158,6 +158,16 @@ def check_outcome(cls, fam, kind, n, res):
                     bad(f"named bit {attr!r} reads {got[1]!r} although no clean frame was received")
                 elif got[0] == "ok" and got[1] is not None:
                     res.observe("bitmap-bit-not-None-when-missing", f"{tag}.{attr} = {got[1]!r}")
+        # a name that is no bit of this answer is an AttributeError (not a silent False / None)
+        if kind != "error" and n in (0, 255):
+            for bogus in ("no_such_bit", "lamp_failure_x", "bits_", "status_"):
+                try:
+                    x = getattr(r, bogus)
+                    bad(f"attribute {bogus!r} reads {x!r}; only the named bits of the answer are attributes")
+                except AttributeError:
+                    res.add("unknown_bit_names_rejected")
+                except Exception as e:
+                    bad(f"attribute {bogus!r} raised {type(e).__name__}")
         # the generic 'error' flag of bitmap responses that do not redefine it
         from dali import command
         if not any("error" in vars(k) for k in cls.__mro__ if k is not command.BitmapResponse
